@@ -51,7 +51,7 @@ class SVal:
         return False
 
     def py_isinstance(self, cx, clsname: str):
-        raise Unsupported(f"isinstance({type(self).__name__}, {clsname})")
+        return clsname == "object" or clsname == getattr(self, "pytype", None) or clsname == type(self).__name__
 
     def py_getattr(self, cx, name):
         m = getattr(self, "attr_" + name, None)
